@@ -271,14 +271,24 @@ class C02(Check):
 
     def build(self, spec):
         stmts = self.ast(spec)
-        src, _ = L.render(stmts)
         try:
             exp = L.Interp().run(stmts)[:3]
         except L.Unsupported as u:
             exp = ("unsupported", str(u), None)
-        return [{"src": src, "step_limit": 300000}], exp
+        # the same AST printed plainly and with (run-time erased) type annotations, generic parameters and member declarations
+        return [{"src": L.render(stmts, lay)[0], "step_limit": 300000} for lay in ("min", "typed")], exp
 
     def judge(self, spec, exp, rs):
+        last = None
+        for k, r in enumerate(rs):
+            last = self.judge1(spec, exp, [r])
+            if not last.ok:
+                if k == 1:
+                    last.reason = "[typed layout] " + last.reason
+                return last
+        return last
+
+    def judge1(self, spec, exp, rs):
         r = rs[0]
         cls, out, ecls = exp
         if cls != "ok":
